@@ -389,8 +389,13 @@ pub fn threads() -> usize {
 
 pub fn run(prop: &str, tier: &str) -> i32 {
     let mut report = Report::new(prop, tier, "model_checking");
+    run_into(&mut report, prop, tier, 1.0);
+    report.finish()
+}
+
+pub fn run_into(report: &mut Report, prop: &str, tier: &str, share: f64) {
     let plans = plans(prop, tier);
-    let cap = wall_cap(tier, plans.len());
+    let cap = wall_cap(tier, plans.len()).mul_f64(share);
     let mut tot_states = 0u64;
     let mut tot_trans = 0u64;
     let mut tot_extra = 0u64;
@@ -468,26 +473,25 @@ pub fn run(prop: &str, tier: &str) -> i32 {
             );
         }
     }
-    report.cov("states", json!(tot_states));
-    report.cov("transitions", json!(tot_trans));
-    report.cov("traces_validated_against_impl", json!(tot_trans));
-    report.cov("implementation_operations_executed_incl_replays", json!(tot_trans + tot_extra));
-    report.cov("evaluations", json!(tot_trans));
-    report.cov("distinct_nontrivial", json!(tot_nontrivial));
-    report.cov("distinct_outcomes", json!(tot_outcomes));
-    report.cov(
+    report.add_cov_u64("states", tot_states);
+    report.add_cov_u64("transitions", tot_trans);
+    report.add_cov_u64("traces_validated_against_impl", tot_trans);
+    report.add_cov_u64("implementation_operations_executed_incl_replays", tot_trans + tot_extra);
+    report.add_cov_u64("evaluations", tot_trans);
+    report.add_cov_u64("distinct_nontrivial", tot_nontrivial);
+    report.add_cov_u64("distinct_outcomes", tot_outcomes);
+    report.concat_cov(
         "rule",
-        json!("breadth-first over all operation sequences of the alphabet up to the depth; every transition is executed on a fresh real PriceLevel (history replayed) and checked; states de-duplicated on the implementation's complete state (ticket queue mirror, map content, aggregates) plus alive model variants; non-trivial = reaches a state with >= 2 orders or a partially filled / replenished / amended order"),
+        "engine S: breadth-first over all operation sequences of the alphabet up to the depth; every transition is executed on a fresh real PriceLevel (history replayed) and checked; states de-duplicated on the implementation's complete state (ticket queue mirror, map content, aggregates) plus alive model variants; non-trivial = reaches a state with >= 2 orders or a partially filled / replenished / amended order",
     );
-    report.cov("exhaustive", json!(exhaustive));
-    report.cov("runs", json!(runs));
-    report.cov("samples", json!(samples));
-    report.assumptions = vec![
-        "bounded: 2-3 order ids, the listed templates and quantities, depth as reported".into(),
-        "state keys are 128-bit hashes (collisions neglected)".into(),
-        "map iteration order is owned by the listing seam (verif-hooks)".into(),
-    ];
-    report.finish()
+    report.and_cov("exhaustive", exhaustive);
+    report.append_cov("runs", runs);
+    report.append_cov("samples", samples);
+    report.assumptions.extend([
+        "bounded: 2-3 order ids, the listed templates and quantities, depth as reported".to_string(),
+        "state keys are 128-bit hashes (collisions neglected)".to_string(),
+        "map iteration order is owned by the listing seam (verif-hooks)".to_string(),
+    ]);
 }
 
 /// `plverif replay <file>`: re-executes a recorded history twice and prints what happened.
